@@ -266,7 +266,14 @@ def rule_same_attribute(ctx: Ctx, rep: Report) -> None:
     rep.floor(rule, 1)
 
 
+def rule_own_fields(ctx: Ctx, rep: Report) -> None:
+    """C17.own_fields: an object hands its own fields to the functions it delegates to (see sigcommon.rule_own_fields_forwarded)."""
+    from rules.sigcommon import rule_own_fields_forwarded
+    rule_own_fields_forwarded(ctx, rep, "C17.own_fields", ('btclib.block.block', 'btclib.p2p.compact_blocks', 'btclib.p2p.block_filters', 'btclib.block.block_filter'), 8)
+
+
 RULES = [
+    ("C17.own_fields", rule_own_fields),
     ("C17.filter_match", rule_filter_match),
     ("C17.same_attribute", rule_same_attribute),
     ("C17.block_gate", rule_block_gate),
